@@ -54,9 +54,14 @@ func NewWarmUpTrafficShapingCalculator(owner *TrafficShapingController, rule *Ru
 		logging.Warn("[NewWarmUpTrafficShapingCalculator] No set WarmUpColdFactor,use default warm up cold factor value", "defaultWarmUpColdFactor", config.DefaultWarmUpColdFactor)
 	}
 
-	intervalInMs := uint64(1000)
+	// (a rule without an interval of its own is counted by the resource's default statistic, whose
+	// interval is a setting of the process)
+	intervalInMs := uint64(config.MetricStatisticIntervalMs())
 	if rule.StatIntervalInMs > 0 {
 		intervalInMs = uint64(rule.StatIntervalInMs)
+	}
+	if intervalInMs == 0 {
+		intervalInMs = 1000
 	}
 	// the warm-up period in intervals
 	period := float64(rule.WarmUpPeriodSec) * 1000.0 / float64(intervalInMs)
@@ -93,7 +98,10 @@ func (c *WarmUpTrafficShapingCalculator) CalculateAllowedTokens(batchCount uint3
 	metricReadonlyStat := c.BoundOwner().boundStat.readOnlyMetric
 	previousQps := metricReadonlyStat.GetPreviousQPS(base.MetricEventPass)
 	// the tokens that passed in the previous interval
-	c.syncToken(previousQps*float64(c.intervalInMs)/1000.0, batchCount)
+	// (a count: the rate per second times the interval does not always give the count back exactly -
+	// 3 per 900 ms comes back as 2.9999999999999996 - and a count just under the low-traffic bound made
+	// a saturated rule look idle for ever)
+	c.syncToken(math.Round(previousQps*float64(c.intervalInMs)/1000.0), batchCount)
 
 	restToken := atomic.LoadInt64(&c.storedTokens)
 	if restToken < 0 {
